@@ -20,10 +20,16 @@
 (*  "flush_clears_before_install": Memtable.flush() empties the rotated      *)
 (*     memtable at flush start, so the immutable memtable that is meant to   *)
 (*     serve reads during the SSTable write delay is empty.                  *)
-(*  "compaction_concurrent_install": _compact merges the overlapping SSTables *)
-(*     of the target level oldest-first with "first one wins"; harmless      *)
-(*     while a level >= 1 never holds one key twice, wrong once two          *)
-(*     overlapping compactions have installed two outputs into one level.    *)
+(*  "compaction_concurrent_install": _compact is not serialised: a flush     *)
+(*     install starts a compaction while another client's compaction is in   *)
+(*     its write delay; both select the same inputs and install two outputs  *)
+(*     holding the same keys into one level.  Then (a) the next compaction   *)
+(*     into that level fills from the overlapping tables oldest-first with   *)
+(*     "first one wins" and resurrects the older value, (b) on the deepest   *)
+(*     level one output drops a tombstone while the other still holds the    *)
+(*     old value.  Design (absent): one compaction at a time (a flush        *)
+(*     install that finds one in flight does not start another) and the      *)
+(*     overlapping tables are consulted newest-first.                        *)
 (*  "reader_iter_skips_on_shrink": get/scan walk `reversed(level)` of the    *)
 (*     live list across yields; when a compaction install shrinks the list   *)
 (*     below the iterator's index the rest of the level is skipped.          *)
@@ -127,7 +133,8 @@ MemSizeOf(mm, mid) ==
 CompactStart(mm, c) ==
     LET cfg == mm.cfg
         sl == SelectLevel(cfg, mm.lv)
-    IN IF sl = 0 THEN Finish(mm, c, 0, <<>>)
+        busy == \E d \in DOMAIN mm.cl : d # c /\ mm.cl[d].pc = "compact"
+    IN IF sl = 0 \/ (busy /\ ~DevOn(mm, "compaction_concurrent_install")) THEN Finish(mm, c, 0, <<>>)
        ELSE LET sel == mm.lv[sl]
                 tl == Min2(sl + 1, cfg.maxlev)
                 m0 == MergeOldToNew(sel, Len(sel))
